@@ -54,7 +54,7 @@ def tla_value(v):
 
 
 MC_DEFAULTS = dict(Family="conc", Kinds={"single"}, ApisA={"lock"}, UnivA={1}, MinLenA=0, MaxLenA=1,
-                   CallsB={("single", (1,), "lock")}, Policies={"RP"}, NT=2, Keys={"owned"}, ConcBodies={"acc"}, Rounds=1,
+                   CallsB={("single", (1,), "lock")}, Policies={"RP"}, NT=2, Keys={"owned"}, ConcBodies={"acc"}, Rounds=1, ConcCtors={"try_new"},
                    SeqColls={1}, SeqApis={"lock"}, SeqRels={"drop"}, SeqKeys={"owned"}, SeqBodies={"acc"},
                    SeqKeyOps=set(), SeqTopOps=set(), SeqDbgColls=set(), SeqMaxLen=1, SeqHolders={("none", 0)},
                    FltColls={1}, FltApis={"lock"}, FltKeys={"owned"}, FltRels={"drop"}, FltHolders={("none", 0)},
